@@ -135,3 +135,46 @@ def struct_model_vs_struct(seed):
                 return {'ok': False, 'cases': cases, 'detail': 'range %s %d' % (c, v)}
             cases += 1
     return {'ok': True, 'cases': cases, 'formats': len(fmts), 'skipped_formats': skipped}
+
+
+def time_model_vs_time(seed):
+    """M_time.gmtime against the real time.gmtime on boundary and random instants; localtime against the real one under TZ settings"""
+    import os, random, time
+    os.environ['VF_MODE_SAVE'] = os.environ.get('VF_MODE', '')
+    from vf.models import mtime
+    rnd = random.Random(seed)
+    cases = 0
+    pts = [0, 1, 86399, 86400, 68169599, 68169600, 951782399, 951782400, 951868800, 4102444799, 2 ** 31 - 1, 2 ** 31]
+    for y in range(1971, 2100, 7):
+        pts.append(int(time.mktime((y, 1, 1, 0, 0, 0, 0, 0, 0))) if False else 0)
+    pts += [rnd.randrange(0, 4102444800) for _ in range(6000)]
+    for t in pts:
+        a, b = time.gmtime(t), mtime._civil_concrete(t)
+        if (a.tm_year, a.tm_mon, a.tm_mday, a.tm_hour, a.tm_min, a.tm_sec, a.tm_yday) != (b.tm_year, b.tm_mon, b.tm_mday, b.tm_hour, b.tm_min, b.tm_sec, b.tm_yday):
+            return {'ok': False, 'cases': cases, 'detail': 'gmtime(%d)' % t}
+        cases += 1
+    old = os.environ.get('TZ')
+    try:
+        for tz in ('UTC', 'Europe/Berlin', 'America/New_York', 'Australia/Sydney', 'Australia/Lord_Howe', 'Pacific/Chatham', 'Asia/Kathmandu',
+                   'Asia/Kolkata', 'Pacific/Kiritimati', 'Etc/GMT+12', 'America/St_Johns', 'Asia/Tehran'):
+            os.environ['TZ'] = tz
+            time.tzset()
+            for _ in range(400):
+                t = rnd.randrange(0, 4102444800)
+                lt = time.localtime(t)
+                off = lt.tm_gmtoff
+                if off % 900 != 0:
+                    continue      # zones with offsets that are not multiples of 15 minutes are outside the property
+                mtime.set_offset(off // 900)
+                b = mtime.localtime(t)
+                if (lt.tm_year, lt.tm_mon, lt.tm_mday, lt.tm_hour, lt.tm_min, lt.tm_sec, lt.tm_yday) != (b.tm_year, b.tm_mon, b.tm_mday, b.tm_hour, b.tm_min, b.tm_sec, b.tm_yday):
+                    return {'ok': False, 'cases': cases, 'detail': 'localtime(%d) TZ=%s' % (t, tz)}
+                cases += 1
+    finally:
+        if old is None:
+            os.environ.pop('TZ', None)
+        else:
+            os.environ['TZ'] = old
+        time.tzset()
+        mtime.set_offset(0)
+    return {'ok': True, 'cases': cases}
